@@ -220,5 +220,7 @@ def check(ck: Check) -> None:
     ck.run("R01.10", "apply mirrors validate", lambda: rule_uto_apply(ck, "R01.10"))
     from .c03 import r03_1
     ck.run("R03.1", "the prior chain state is a persistent value nobody writes", lambda: r03_1(ck))
+    from .c09 import r09_flow
+    ck.run("R09.flow", "relayed blocks: rejected ones (also by an error while validating) leave state and store as they were", lambda: r09_flow(ck))
     ck.run("R01.11", "key semantics of an output reference", lambda: r01_11(ck))
     ck.assume("ECDSA (ecdsa library) and SHA-256 behave as specified; immutables.Map is persistent")
